@@ -165,7 +165,7 @@ Form3(f, Xh) ==     \* [recv, stmts]
           [] f = 28 -> <<SAug("*", TVar("r"), Xh)>>
           [] f = 29 -> <<SAug("%", TVar("r"), Xh)>>]
 (* the forms with three holes (the third written like the second) *)
-NB4 == 28
+NB4 == 30
 Form4(f, Xh, Yh, Zh) ==
     CASE f = 1  -> Sl(Xh, Yh, Zh, ABSENT)
       [] f = 2  -> Sl(Xh, ABSENT, Yh, Zh)
@@ -195,6 +195,8 @@ Form4(f, Xh, Yh, Zh) ==
       [] f = 26 -> ABin("in", Zh, AList(<<Xh, Yh>>))
       [] f = 27 -> MC(Xh, "startswith", <<Yh, Zh>>)
       [] f = 28 -> MC(Xh, "endswith", <<Yh, Zh>>)
+      [] f = 29 -> MC(Xh, "startswith", <<Yh, Zh, AInt(-1)>>)      \* a window with a negative end
+      [] f = 30 -> MC(Xh, "endswith", <<Yh, Zh, AInt(-1)>>)
 
 (* ---- a case as a chunk *)
 Hole(i, mode, pname) == IF mode = "l" THEN Cat[i].e ELSE AVar(pname)
